@@ -159,6 +159,20 @@ def check_step(ck, rng, spec, cfg, case_key):
     except Exception as e:
         ck.violation("assemble", regime, entry, "constructor_raised:" + type(e).__name__, dict(wit, error=repr(e)[:300]))
         return
+    # the set of optimised parameters is the set that requires grad when step() runs: flags changed after the optimiser
+    # was constructed (freeze one of several trainable parameters / unfreeze a frozen one) must be honoured
+    plist_ = model.plist()
+    if len(plist_) >= 2 and rng.random() < 0.35:
+        frozen_ = [p_ for p_ in plist_ if not p_.requires_grad]
+        train_ = [p_ for p_ in plist_ if p_.requires_grad]
+        if frozen_ and rng.random() < 0.5:
+            frozen_[0].requires_grad_(True)
+            ck.mark("flags/unfrozen_after_construction")
+            wit["flags_changed_after_construction"] = "unfroze a parameter"
+        elif len(train_) >= 2:
+            train_[int(rng.integers(len(train_)))].requires_grad_(False)
+            ck.mark("flags/frozen_after_construction")
+            wit["flags_changed_after_construction"] = "froze a parameter"
     if cfg["weight"] and cfg["weight_at"] == "init":
         opt.weight = weights
     if cfg["weight"] and cfg["weight_at"] == "both":
@@ -342,6 +356,7 @@ def run(ck):
         check_step(ck, rng, spec, cfg, (ck.shard, i, spec["desc"]))
     for t in templates:
         ck.require("template/" + t)
+    ck.require("flags/frozen_after_construction", "flags/unfrozen_after_construction")
     ck.require("update/group_retraction", "update/frozen_seen", "clamp/min_binds", "clamp/max_binds", "system/second_step_after_inplace_weight_update",
                "weight/given_at_init_and_step", "input/dict", "input/single")
     ck.floor("assemble", 30)
